@@ -47,6 +47,10 @@ fn main() {
         .min(16);
     let thorough = tier == "thorough";
     let mut rep = Report::new(&property, &tier, seed);
+    // must equal MANIFEST.json level_claimed.category
+    if matches!(property.as_str(), "C06" | "C07" | "C13") {
+        rep.level = "fault_enumeration".to_string();
+    }
     rep.assumptions.push("undermoon is built at opt-level 0 (debug assertions and overflow checks on); release builds of the crate do not compile with the installed toolchain".to_string());
     let code = match property.as_str() {
         "C01" | "C04" | "C06" | "C12" | "C18" | "C10" => {
@@ -94,6 +98,10 @@ fn main() {
                 }
                 _ => {}
             }
+            rep.finish()
+        }
+        "C02" => {
+            umverif::c02::run(&mut rep);
             rep.finish()
         }
         "C05" => {
